@@ -175,6 +175,9 @@ def build(path, cfg, r):
     if cfg["with_without_rowid"]:
         con.execute("CREATE TABLE w0 (k TEXT, k2 INTEGER, v BLOB, PRIMARY KEY (k, k2)) WITHOUT ROWID")
         wr["w0"] = ["k", "k2", "v"]
+        # one-column keys: the cells of 0, 1 and '' are three bytes long (SQLite allocates four bytes for them)
+        con.execute("CREATE TABLE w1 (a PRIMARY KEY) WITHOUT ROWID")
+        wr["w1"] = ["a"]
     if cfg["with_view_trigger"]:
         con.execute("CREATE VIEW v0 AS SELECT * FROM t0")
         con.execute("CREATE TABLE log0 (x)")
@@ -195,7 +198,13 @@ def build(path, cfg, r):
                     con.execute(f"INSERT INTO {name} VALUES ({','.join('?' * len(names))})", vals)
                 except sqlite3.IntegrityError:
                     pass
-        for name in wr:
+        if "w1" in wr:
+            for v in [0, 1, "", b"", 7, "x"] + [r.randint(-300, 300) for _ in range(min(n, 40))]:
+                try:
+                    con.execute("INSERT INTO w1 VALUES (?)", (v,))
+                except sqlite3.IntegrityError:
+                    pass
+        for name in ["w0"] if "w0" in wr else []:
             for _ in range(n):
                 k = rand_value(r, ps, r.choice(["text", "text", "bigtext"]), big=cfg["big_values"])
                 try:
@@ -221,6 +230,8 @@ def build(path, cfg, r):
                     continue
                 con.execute(f"UPDATE {name} SET {c}=? WHERE rowid=?",
                             (rand_value(r, ps, big=cfg["big_values"] and name != "wide"), rid))
+        if "w1" in wr:
+            con.execute("DELETE FROM w1 WHERE a IN (1, 7, ?)", (r.randint(-300, 300),))
         con.execute("COMMIT")
         insert_rows(max(1, cfg["rows"] // 4))
     if r.random() < 0.15 and tables:
